@@ -523,6 +523,16 @@ func (c *Cluster) react(a clienttesting.Action) (bool, runtime.Object, error) {
 
 func gr(gvr schema.GroupVersionResource) schema.GroupResource { return gvr.GroupResource() }
 
+func tooManyControllers(refs []metav1.OwnerReference) bool {
+	n := 0
+	for _, r := range refs {
+		if r.Controller != nil && *r.Controller {
+			n++
+		}
+	}
+	return n > 1
+}
+
 func (c *Cluster) execute(a clienttesting.Action, act *Action) (runtime.Object, error) {
 	gvr := act.GVR
 	ns := act.Namespace
@@ -606,6 +616,14 @@ func (c *Cluster) execute(a clienttesting.Action, act *Action) (runtime.Object, 
 			return nil, err
 		}
 		nm, _ := meta.Accessor(obj)
+		if tooManyControllers(nm.GetOwnerReferences()) {
+			// metadata validation: only one owner reference may have controller=true. The generic
+			// reaction has already stored the patched object; put the old one back.
+			if uerr := c.tracker.Update(gvr, old, ns); uerr != nil {
+				return nil, uerr
+			}
+			return nil, apierrors.NewInvalid(schema.GroupKind{Group: gvr.Group, Kind: gvr.Resource}, t.GetName(), nil)
+		}
 		nm.SetResourceVersion(c.nextRV())
 		if err := c.tracker.Update(gvr, obj, ns); err != nil {
 			return nil, err
